@@ -111,6 +111,7 @@ def run(run):
     t2(run, T)
     t3(run, T)
     t4(run, T)
+    t5(run, T)
     run.assume("the run-time merge of polygon + line into a marker line (Polygon tags -> markers) is not decided")
 
 
@@ -545,7 +546,56 @@ def thorough(run):
     t4(run, T, widths=range(1, 9), heights=range(0, 7), stubs=True, rule="C14.T4+")
 
 
-def t4(run, T, widths=range(1, 5), heights=range(0, 4), stubs=False, rule="C14.T4"):
+BULLET_LINES = (("-", ("left", "right")), ("~", ("left", "right")), ("|", ("top", "bottom")), (":", ("top", "bottom")), ("!", ("top", "bottom")),
+                ("/", ("top_right", "bottom_left")), ("\\", ("top_left", "bottom_right")))
+
+
+def t5(run, T):
+    """T5 [N] bullets: "a bullet character attached to a line (* o O) becomes a circle marker of the documented kind ... on a
+    line whose marked end is the centre of the bullet's cell, and is not shown as text".  Per cell, by table evaluation:
+    for each bullet and each solid or dashed line character running towards it (7 characters x 2 sides) the bullet's
+    cell yields exactly one circle centred on the cell centre - filled for `*`, open for `o` and `O`, `O` the bigger one -
+    so the character does not fall back to text.  (The run-time merge of circle and line into a marker line is C14.T2.)"""
+    from fractions import Fraction as F
+    n = 0
+    radii = {}
+    for b in "*oO":
+        if b not in T.ascii:
+            run.bad("C14.T5", "bullet-missing/%s" % b, T.ascii_file, "the character table has no entry for the bullet %r" % b)
+            continue
+        for ch, dirs in BULLET_LINES:
+            for d in dirs:
+                nbs = {k: None for k in ("top_left", "top", "top_right", "left", "right", "bottom_left", "bottom", "bottom_right")}
+                nbs[d] = ch
+                frs = T.fragments(b, nbs)
+                n += 1
+                circles = [f for f in frs if f[0] == "circle"]
+                inst = "bullet %r with %r on its %s" % (b, ch, d)
+                w = "%s:%d" % (T.ascii_file, T.ascii[b]["line"])
+                if len(circles) != 1:
+                    run.bad("C14.T5", "bullet-not-marker/%s/%s/%s" % (b, ch, d), w,
+                            "%s yields %s: the bullet is not turned into a circle (it falls back to text, the line ends unmarked)" % (inst, [f[0] for f in frs] or "nothing"))
+                    continue
+                c = circles[0]
+                centre_ok = tuple(c[1][1:3]) == (F(1, 2), F(1)) if isinstance(c[1], tuple) and c[1][0] == "pt" else False
+                filled_ok = bool(c[3]) == (b == "*")
+                radii.setdefault(b, set()).add(c[2])
+                if centre_ok and filled_ok:
+                    run.ok("C14.T5", inst + " -> one %s circle on the cell centre" % ("filled" if c[3] else "open"), w, nontrivial=False)
+                else:
+                    run.bad("C14.T5", "bullet-circle/%s/%s/%s" % (b, ch, d), w, "%s: circle centre %r filled=%s" % (inst, c[1], c[3]))
+    if all(len(radii.get(b, ())) == 1 for b in "*oO"):
+        ro, rO = list(radii["o"])[0], list(radii["O"])[0]
+        if rO > ro:
+            run.ok("C14.T5", "`O` draws the bigger open circle (%s > %s), one radius per bullet" % (rO, ro), T.ascii_file)
+        else:
+            run.bad("C14.T5", "bullet-sizes", T.ascii_file, "`O` (radius %s) is not bigger than `o` (radius %s)" % (rO, ro))
+    elif radii:
+        run.bad("C14.T5", "bullet-sizes", T.ascii_file, "a bullet is drawn with different radii depending on the line character: %s" % {k: sorted(map(str, v)) for k, v in radii.items()})
+    run.floor("C14.T5", "bullet_cases", n, 42)
+
+
+def t4(run, T, widths=range(1, 5), heights=range(0, 4), stubs=False, rule="C14.T4", styles=None, kind="rounded", floor=64):
     """T4 outlines are continuous (model evaluation).  A cell's fragments depend on its eight neighbours only, so the
     neighbourhoods that occur in rounded outlines of *all* sizes are exhausted by widths 1..4 x side rows 0..3.  For
     every corner style the table is evaluated cell by cell on such outlines; every cell of the outline must yield a
@@ -603,6 +653,15 @@ def t4(run, T, widths=range(1, 5), heights=range(0, 4), stubs=False, rule="C14.T
                         a = ("pt", fr[1][1] + x, fr[1][2] + 2 * y)
                         b = ("pt", fr[2][1] + x, fr[2][2] + 2 * y)
                         frs.append((fr[0], a, b, (x - 2, y - 2, ch), (x, y) == stub_cell))
+        # the same segment produced by two rules of one cell is one segment (a copy must not count as "another fragment")
+        uniq, seen_geo = [], set()
+        for f in frs:
+            key = (f[0], frozenset((f[1], f[2])))
+            if key in seen_geo:
+                continue
+            seen_geo.add(key)
+            uniq.append(f)
+        frs = uniq
         dang = []
         for i, f in enumerate(frs):
             if f[4]:
@@ -612,9 +671,10 @@ def t4(run, T, widths=range(1, 5), heights=range(0, 4), stubs=False, rule="C14.T
                     dang.append((p, f[3]))
         return text, dang
 
-    styles = [(tl, tr, bl, br, "-", "|") for tl, tr, bl, br in it.product(".,", ".", "'`", "'")]
-    if all(c in T.unicode for c in "╭╮╰╯─│"):
-        styles.append(("╭", "╮", "╰", "╯", "─", "│"))
+    if styles is None:
+        styles = [(tl, tr, bl, br, "-", "|") for tl, tr, bl, br in it.product(".,", ".", "'`", "'")]
+        if all(c in T.unicode for c in "╭╮╰╯─│"):
+            styles.append(("╭", "╮", "╰", "╯", "─", "│"))
     n = 0
     for tl, tr, bl, br, hz, vt in styles:
         if any(c not in T.ascii and c not in T.unicode for c in (tl, tr, bl, br, hz, vt)):
@@ -642,9 +702,9 @@ def t4(run, T, widths=range(1, 5), heights=range(0, 4), stubs=False, rule="C14.T
                 w_, h, (" and a stub attached to its %s side" % stub) if stub else "", ("cell(s) %s fall back to text; " % ", ".join("%r at (%d,%d)" % (c, x, y) for x, y, c in text)) if text else "",
                 ("loose end(s) at %s" % ", ".join("(%s,%s) of %r" % (float(p[1]) - 2, float(p[2]) - 4, c[2]) for p, c in dang[:3])) if dang else "")
         if bad_in:
-            run.bad(rule, "outline-open/%s" % style, T.ascii_file, "rounded outline with corners %s is not continuous: %s" % (style, describe(bad_in)))
+            run.bad(rule, "outline-open/%s" % style, T.ascii_file, "%s outline with corners %s is not continuous: %s" % (kind, style, describe(bad_in)))
         else:
-            run.ok(rule, "rounded outlines with corners %s are closed curves (widths %d..%d x %d..%d side rows%s; every cell draws, every end meets another fragment)" % (
+            run.ok(rule, kind + " outlines with corners %s are closed curves (widths %d..%d x %d..%d side rows%s; every cell draws, every end meets another fragment)" % (
                 style, min(widths), max(widths), max(1, min(heights)), max(heights), ", with and without a stub on each side" if stubs else ""), T.ascii_file)
         if bad_boundary:
             if (tl, bl) in BOUNDARY_OPEN:
@@ -652,11 +712,11 @@ def t4(run, T, widths=range(1, 5), heights=range(0, 4), stubs=False, rule="C14.T
                        T.ascii_file, BOUNDARY_OPEN[(tl, bl)], nontrivial=False)
             else:
                 run.bad(rule, "outline-open-smallest/%s" % style, T.ascii_file,
-                        "the smallest rounded outline with corners %s (corners directly above each other) was continuous and is not any more: %s" % (style, describe(bad_boundary)))
+                        "the smallest %s outline with corners %s (corners directly above each other) is not continuous: %s" % (kind, style, describe(bad_boundary)))
         elif (tl, bl) in BOUNDARY_OPEN:
             run.note("C14.T4: the smallest outline with corners %s is closed now; its BOUNDARY_OPEN entry is obsolete" % style)
     run.record("outline_grids_evaluated", n)
-    run.floor(rule, "outline_grids", n, 64)
+    run.floor(rule, "outline_grids", n, floor)
     run.record("outline_grids_evaluated" + ("_thorough" if stubs else ""), n)
 
 
